@@ -30,6 +30,7 @@ import (
 	"github.com/bbockelm/cedar/commands"
 	"github.com/bbockelm/cedar/message"
 	"github.com/bbockelm/cedar/security"
+	"github.com/bbockelm/cedar/server"
 	"github.com/bbockelm/cedar/stream"
 )
 
@@ -41,12 +42,19 @@ const (
 	clientAddr   = "<192.0.2.7:40000>"
 	otherAddr    = "<198.51.100.9:5555>"
 	srvName      = "<10.0.0.1:9618>"
+
+	// the command table of the dispatching server (op.Via): one command of each dispatch class
+	cmdServed  = 421   // registered, level READ: the Authorizer admits everyone
+	cmdAuthReq = 60007 // registered, level DAEMON, per-command policy Authentication REQUIRED: only authenticated sessions with an identity
+	cmdDenied  = 477   // registered, level ADMINISTRATOR: the Authorizer admits no one
+	cmdRawOnly = 60021 // registered as a raw (unauthenticated) command only
+	cmdUnreg   = 60099 // not registered
 )
 
 // ---- operations ---------------------------------------------------------------
 
 type op struct {
-	Kind string `json:"k"` // est raw mint ft resume renew tick inval sweep
+	Kind string `json:"k"` // est raw mint ft rekey resume renew tick inval sweep
 	// est: Enc (true = AES session, false = plaintext session)
 	Enc  bool `json:"enc,omitempty"`
 	Auth bool `json:"auth,omitempty"` // est: CLAIMTOBE authentication, the server maps the identity (PostAuthPolicy)
@@ -76,8 +84,15 @@ type op struct {
 	BigDur   bool `json:"bigdur,omitempty"`
 	AskDur   int  `json:"askdur,omitempty"`
 	AskLease int  `json:"asklease,omitempty"`
+	// est / resume: the connection is accepted by a dispatching server.Server (ServeConn) with the fixed command table;
+	// Cmd picks the dispatch class (served / refused by the per-command policy / by the Authorizer / raw-only / unregistered)
+	Via bool `json:"via,omitempty"`
+	// resume, Req "guess": the key the requester (who never held the session key) tries: zero ff sid other old
+	Guess string `json:"guess,omitempty"`
+	// resume, Req "legit": the client's OWN policy has Authentication REQUIRED (it refuses an unauthenticated session after the server resumed it)
+	AuthReq bool `json:"authreq,omitempty"`
 	// resume
-	N     int    `json:"n,omitempty"`     // target session ordinal (also renew / inval)
+	N     int    `json:"n,omitempty"`     // target session ordinal (also renew / inval / rekey)
 	Req   string `json:"req,omitempty"`   // legit idonly wrongkey rightkey unknown onechar
 	Want  bool   `json:"want,omitempty"`  // ResumeResponse
 	Other bool   `json:"other,omitempty"` // arrives from another address
@@ -92,7 +107,12 @@ type history struct {
 
 type sess struct {
 	id         string
-	key        []byte // nil = none
+	key        []byte   // nil = none.  A COPY of the key bytes taken when the session was stored (never the cache's own slice)
+	gen        int      // how many times the id was registered again with a fresh key (rekey)
+	oldKeys    [][]byte // the keys of earlier registrations of this id
+	raw        op       // raw: the op that stored it (rekey stores the same shape again)
+	storedKey  []byte   // est: copy of the key bytes found in the server's cache entry right after the handshake
+	estServed  bool     // est via: the dispatcher ran the handler
 	proto      string
 	usable     bool
 	custom     bool
@@ -118,6 +138,22 @@ type world struct {
 	custom *security.SessionCache
 	sess   []*sess
 	now    int64
+	keyLog map[*security.SessionCache]map[string]*keyRec
+}
+
+// keyRec: the key material an entry object carried when it was first seen in a cache
+type keyRec struct {
+	entry *security.SessionEntry
+	has   bool
+	data  []byte
+	proto string
+}
+
+func cp(b []byte) []byte {
+	if b == nil {
+		return nil
+	}
+	return append([]byte{}, b...)
 }
 
 // ---- connection plumbing ---------------------------------------------------------
@@ -219,6 +255,8 @@ type srvObs struct {
 	sentCanary  bool
 	wrote       []byte
 	readBytes   []byte
+	served      bool // via: the dispatcher ran the command's handler
+	hsOnly      bool // via: the handshake succeeded (AUTHORIZED seen by the requester) but the command was refused: no negotiation / stream observation
 }
 
 // serve runs the real ServerHandshake on conn, then the application phase:
@@ -244,11 +282,19 @@ func serveH(conn net.Conn, cfg *security.SecurityConfig, peer string, onFirstWri
 		o.wrote, o.readBytes = rec.wrote(), rec.read()
 		return o
 	}
+	appPhase(ctx, st, neg, &o)
+	o.wrote, o.readBytes = rec.wrote(), rec.read()
+	return o
+}
+
+// appPhase: what the application does with an authenticated connection: the stream is snapshotted before any
+// application byte, then one message (int, string) is read and the canary message sent.
+func appPhase(ctx context.Context, st *stream.Stream, neg *security.SecurityNegotiation, o *srvObs) {
 	o.ok = true
 	o.user, o.authd, o.encFlag, o.resumed, o.command, o.sid, o.valid = neg.User, neg.Authentication, neg.Encryption, neg.SessionResumed, neg.Command, neg.SessionId, neg.ValidCommands
 	snap := st.VerifSnapshot()
 	o.streamEnc = snap.HasKey && snap.Encrypted
-	o.streamKey = snap.Key
+	o.streamKey = cp(snap.Key)
 	rm := message.NewMessageFromStream(st)
 	if v, e1 := rm.GetInt(ctx); e1 == nil {
 		if s, e2 := rm.GetString(ctx); e2 == nil {
@@ -259,6 +305,68 @@ func serveH(conn net.Conn, cfg *security.SecurityConfig, peer string, onFirstWri
 	if wm.PutInt(ctx, 0x5ca1ab1e) == nil && wm.PutString(ctx, canary) == nil && wm.FinishMessage(ctx) == nil {
 		o.sentCanary = true
 	}
+}
+
+// newDispatcher: the real dispatching server over cfg with one command of every dispatch class. Every handler is the
+// application phase above.
+func newDispatcher(cfg *security.SecurityConfig, o *srvObs) *server.Server {
+	srv := server.New(cfg)
+	h := func(ctx context.Context, c *server.Conn) error {
+		o.served = true
+		if c.Negotiation == nil {
+			return nil // a raw command: no session at all
+		}
+		cx, cancel := ctxT()
+		defer cancel()
+		appPhase(cx, c.Stream, c.Negotiation, o)
+		o.command = c.Command // the command the dispatcher routed
+		return nil
+	}
+	srv.Handle(cmdServed, h, "READ")
+	srv.Handle(cmdAuthReq, h, "DAEMON")
+	srv.Handle(cmdDenied, h, "ADMINISTRATOR")
+	srv.HandleRaw(cmdRawOnly, h)
+	authReq := *cfg
+	authReq.Authentication = security.SecurityRequired
+	srv.SecurityConfigForCommand = func(cmd int) *security.SecurityConfig {
+		if cmd == cmdAuthReq {
+			c := authReq
+			return &c
+		}
+		return nil
+	}
+	srv.Authorizer = func(perm, peer, user string) bool { return perm == "READ" || (perm == "DAEMON" && user != "") }
+	srv.FQUMapper = func(u, peer string) string {
+		if u == "" {
+			return ""
+		}
+		return "mapped-" + u + "@verif.pool"
+	}
+	return srv
+}
+
+// the dispatch decision the command table prescribes for a session with this authentication status and identity
+func expectServed(cmd int, authd bool, user string) bool {
+	switch cmd {
+	case cmdServed:
+		return true
+	case cmdAuthReq:
+		return authd && user != ""
+	}
+	return false
+}
+
+// serveVia: the connection is accepted by the dispatching server (ServeConn: command integer, handshake, dispatch).
+func serveVia(conn net.Conn, cfg *security.SecurityConfig) (o srvObs) {
+	rec := &recConn{Conn: conn}
+	srv := newDispatcher(cfg, &o)
+	ctx, cancel := ctxT()
+	defer cancel()
+	func() {
+		defer func() { _ = recover() }()
+		_ = srv.ServeConn(ctx, rec)
+	}()
+	_ = conn.Close()
 	o.wrote, o.readBytes = rec.wrote(), rec.read()
 	return o
 }
@@ -346,6 +454,11 @@ func scripted(conn net.Conn, sid string, want bool, cmd int, key []byte) reqObs 
 
 // the real client resuming session id from its cache
 func legit(conn net.Conn, cache *security.SessionCache, id string, cmd int) reqObs {
+	return legitX(conn, cache, id, cmd, false)
+}
+
+// authReq: the client's own policy has Authentication REQUIRED
+func legitX(conn net.Conn, cache *security.SessionCache, id string, cmd int, authReq bool) reqObs {
 	defer conn.Close()
 	rec := &recConn{Conn: conn}
 	st := stream.NewStream(rec)
@@ -353,6 +466,9 @@ func legit(conn net.Conn, cache *security.SessionCache, id string, cmd int) reqO
 		AuthMethods: []security.AuthMethod{security.AuthNone}, Authentication: security.SecurityOptional,
 		CryptoMethods: []security.CryptoMethod{security.CryptoAES}, Encryption: security.SecurityPreferred, Integrity: security.SecurityOptional,
 		Command: cmd, PeerName: srvName, SessionCache: cache, SessionID: id,
+	}
+	if authReq {
+		cfg.Authentication = security.SecurityRequired
 	}
 	auth := security.NewAuthenticator(cfg, st)
 	ctx, cancel := ctxT()
@@ -439,13 +555,23 @@ func (w *world) cacheOf(s *sess) *security.SessionCache {
 
 // establish by a real full handshake; returns the new session
 func (w *world) establish(enc, authn, shared bool, askDur, askLease int, bigDur bool) *sess {
+	return w.establishX(enc, authn, shared, askDur, askLease, bigDur, false, cmdServed)
+}
+
+// via: the connection is accepted by the dispatching server, the client asks for command cmd (which the dispatcher may
+// refuse AFTER the handshake stored the session)
+func (w *world) establishX(enc, authn, shared bool, askDur, askLease int, bigDur, via bool, cmd int) *sess {
 	cc, sc := net.Pipe()
 	ch := make(chan srvObs, 1)
 	scfg := serverConfigX(enc, w.custom, authn, false)
 	if bigDur {
 		scfg.SessionDuration, scfg.SessionLease = 1<<40, 1<<40
 	}
-	go func() { ch <- serve(sc, scfg, clientAddr) }()
+	if via {
+		go func() { ch <- serveVia(sc, scfg) }()
+	} else {
+		go func() { ch <- serve(sc, scfg, clientAddr) }()
+	}
 	ccache := security.NewSessionCache()
 	peerName := srvName
 	if shared && w.custom == nil {
@@ -458,7 +584,7 @@ func (w *world) establish(enc, authn, shared bool, askDur, askLease int, bigDur 
 	cfg := &security.SecurityConfig{
 		AuthMethods: []security.AuthMethod{security.AuthNone}, Authentication: security.SecurityOptional,
 		CryptoMethods: []security.CryptoMethod{security.CryptoAES}, Encryption: security.SecurityPreferred, Integrity: security.SecurityOptional,
-		Command: 421, PeerName: peerName, SessionCache: ccache,
+		Command: cmd, PeerName: peerName, SessionCache: ccache,
 		SessionDuration: askDur, SessionLease: askLease,
 	}
 	if authn {
@@ -470,13 +596,17 @@ func (w *world) establish(enc, authn, shared bool, askDur, askLease int, bigDur 
 	ctx, cancel := ctxT()
 	neg, err := auth.ClientHandshake(ctx)
 	cancel()
+	var negotiated []byte // the key the handshake left on the client's stream: the reference, independent of any cache
 	if err == nil {
+		if snap := st.VerifSnapshot(); snap.HasKey {
+			negotiated = cp(snap.Key)
+		}
 		sendApp(st)
 		readCanary(st)
 	}
 	cc.Close()
 	so := <-ch
-	if err != nil || !so.ok || neg == nil {
+	if err != nil || neg == nil || (!so.ok && !via) {
 		return nil
 	}
 	e, ok := security.GetSessionCache().VerifSessionKeys()[neg.SessionId]
@@ -484,19 +614,25 @@ func (w *world) establish(enc, authn, shared bool, askDur, askLease int, bigDur 
 		return nil
 	}
 	s := &sess{id: neg.SessionId, exp: w.now + sessDuration, lease: sessLease, client: ccache, hasPol: true}
+	s.key = negotiated
 	if ki := e.KeyInfo(); ki != nil {
-		s.key, s.proto = ki.Data, ki.Protocol
+		s.proto = ki.Protocol
+		s.storedKey = cp(ki.Data)
 	}
 	s.usable = s.key != nil && len(s.key) == 32 && (s.proto == "AES" || s.proto == "AESGCM")
-	// the identity and authentication status the ORIGINAL handshake established on the server
-	// (its negotiation result), not what happens to be in the cache entry
-	s.user, s.authd = so.user, so.authd
-	s.clientUser = neg.User
 	if pol := e.Policy(); pol != nil {
 		s.storedAuthd, _ = pol.EvaluateAttrBool("Authenticated")
 		s.storedUser, _ = pol.EvaluateAttrString("User")
 		s.valid, _ = pol.EvaluateAttrString("ValidCommands")
 	}
+	// the identity and authentication status the ORIGINAL handshake established on the server
+	// (its negotiation result), not what happens to be in the cache entry
+	s.user, s.authd = so.user, so.authd
+	if !so.ok { // via: the dispatcher refused the command, no handler saw the negotiation
+		s.user, s.authd = s.storedUser, s.storedAuthd
+	}
+	s.estServed = so.served
+	s.clientUser = neg.User
 	s.keyKind = map[bool]string{true: "aes32", false: "nil"}[s.key != nil]
 	return s
 }
@@ -548,7 +684,7 @@ func (w *world) importFT(of *sess) *sess {
 
 func fillFromEntry(s *sess, e *security.SessionEntry) *sess {
 	if ki := e.KeyInfo(); ki != nil {
-		s.key, s.proto = ki.Data, ki.Protocol
+		s.key, s.proto = cp(ki.Data), ki.Protocol
 	}
 	s.usable = s.key != nil && len(s.key) == 32 && (s.proto == "AES" || s.proto == "AESGCM")
 	if pol := e.Policy(); pol != nil {
@@ -583,25 +719,28 @@ func derive(id, how string) string {
 	return id + "~"
 }
 
-func (w *world) storeRaw(o op, n int) *sess {
-	s := &sess{id: fmt.Sprintf("rawhost:77:1700000000:%d", n), lease: sessLease, exp: w.now + sessDuration, custom: o.Custom && w.custom != nil, keyKind: o.Key}
+func (w *world) storeRaw(o op, n int) *sess { return w.storeRawG(o, n, 0) }
+
+// gen > 0: the id is registered again, with a fresh key (a NEW session under the old id)
+func (w *world) storeRawG(o op, n, gen int) *sess {
+	s := &sess{id: fmt.Sprintf("rawhost:77:1700000000:%d", n), lease: sessLease, exp: w.now + sessDuration, custom: o.Custom && w.custom != nil, keyKind: o.Key, raw: o, gen: gen}
 	var ki *security.KeyInfo
 	switch o.Key {
 	case "empty":
 		ki = &security.KeyInfo{Data: []byte{}, Protocol: "AES"}
 	case "aes32":
-		ki = &security.KeyInfo{Data: detKey(n, 0), Protocol: "AES"}
+		ki = &security.KeyInfo{Data: detKey(n, gen), Protocol: "AES"}
 	case "aesgcm32":
-		ki = &security.KeyInfo{Data: detKey(n, 0), Protocol: "AESGCM"}
+		ki = &security.KeyInfo{Data: detKey(n, gen), Protocol: "AESGCM"}
 	case "aes16":
-		ki = &security.KeyInfo{Data: detKey(n, 0)[:16], Protocol: "AES"}
+		ki = &security.KeyInfo{Data: detKey(n, gen)[:16], Protocol: "AES"}
 	case "blowfish32":
-		ki = &security.KeyInfo{Data: detKey(n, 0), Protocol: "BLOWFISH"}
+		ki = &security.KeyInfo{Data: detKey(n, gen), Protocol: "BLOWFISH"}
 	case "noproto32": // key bytes without a cipher name
-		ki = &security.KeyInfo{Data: detKey(n, 0), Protocol: ""}
+		ki = &security.KeyInfo{Data: detKey(n, gen), Protocol: ""}
 	}
 	if ki != nil {
-		s.key, s.proto = ki.Data, ki.Protocol
+		s.key, s.proto = cp(ki.Data), ki.Protocol
 	}
 	s.usable = o.Key == "aes32" || o.Key == "aesgcm32"
 	var pol *classad.ClassAd
@@ -686,8 +825,167 @@ func (w *world) snapTermWith(was *sess, pretend bool) string {
 			continue
 		}
 		xs = append(xs, fmt.Sprintf("SS n%d %s %s %s %s", i+1, core.Bool(s.custom), core.Bool(ok), core.Bool(lk), core.Bool(ok && e.IsExpired())))
+		if ok {
+			xs = append(xs, w.keyObs(i, s, e))
+		}
 	}
 	return core.List(xs)
+}
+
+// keyObs: the key bytes the cache holds for session i+1 right now, named by the registration whose key they are
+// (owner ordinal + generation; owner 0 = the key of no registration this history made)
+func (w *world) keyObs(i int, s *sess, e *security.SessionEntry) string {
+	ki := e.KeyInfo()
+	if ki == nil {
+		return fmt.Sprintf("SK n%d %s n0 KNone", i+1, core.Bool(s.custom))
+	}
+	owner, gen := 0, 0
+	match := func(x *sess, ord int) bool {
+		if x.key != nil && bytes.Equal(ki.Data, x.key) {
+			owner, gen = ord, x.gen
+			return true
+		}
+		for g, k := range x.oldKeys {
+			if bytes.Equal(ki.Data, k) {
+				owner, gen = ord, g
+				return true
+			}
+		}
+		return false
+	}
+	if !match(s, i+1) {
+		for j, x := range w.sess {
+			if x != nil && x != s && match(x, j+1) {
+				break
+			}
+		}
+	}
+	return fmt.Sprintf("SK n%d %s n%d %s", i+1, core.Bool(s.custom), owner, kspecTerm(ki.Protocol, len(ki.Data), gen))
+}
+
+func kspecTerm(proto string, n, gen int) string {
+	if gen == 0 {
+		return fmt.Sprintf("(KKey %s n%d)", hexs(proto), n)
+	}
+	return fmt.Sprintf("(KKeyG %s n%d n%d)", hexs(proto), n, gen)
+}
+
+// every cache this history can touch: the process-wide one, the server's own, the clients' own
+func (w *world) caches() []*security.SessionCache {
+	cs := []*security.SessionCache{security.GetSessionCache()}
+	add := func(c *security.SessionCache) {
+		if c == nil {
+			return
+		}
+		for _, x := range cs {
+			if x == c {
+				return
+			}
+		}
+		cs = append(cs, c)
+	}
+	add(w.custom)
+	for _, s := range w.sess {
+		if s != nil {
+			add(s.client)
+		}
+	}
+	return cs
+}
+
+// checkKeys is the invariant cached-key-changed: the key material of a cache entry is byte-identical from the moment
+// the entry is stored until it is removed - whatever happened in between (refused commands, failed resumptions, renewals,
+// refusals by the client's own policy). Two independent views: (1) per cache and id, the entry OBJECT seen last time
+// still carries the bytes it carried then; (2) per session this history stored, the cache holds the bytes it was stored with.
+func (w *world) checkKeys(what string, fail func(key, f string, a ...interface{})) {
+	if w.keyLog == nil {
+		w.keyLog = map[*security.SessionCache]map[string]*keyRec{}
+	}
+	for ci, c := range w.caches() {
+		log := w.keyLog[c]
+		if log == nil {
+			log = map[string]*keyRec{}
+			w.keyLog[c] = log
+		}
+		cur := c.VerifSessionKeys()
+		for id, e := range cur {
+			ki := e.KeyInfo()
+			rec := log[id]
+			if rec != nil && rec.entry == e {
+				if (ki != nil) != rec.has || (ki != nil && (!bytes.Equal(ki.Data, rec.data) || ki.Protocol != rec.proto)) {
+					fail("cached-key-changed", "after %s: the key material of cache entry %q (cache #%d; 0 = process-wide) is no longer what the entry was stored with (%s)", what, id, ci, keyDiff(rec, ki))
+				} else {
+					continue
+				}
+			}
+			r := &keyRec{entry: e}
+			if ki != nil {
+				r.has, r.data, r.proto = true, cp(ki.Data), ki.Protocol
+			}
+			log[id] = r
+		}
+		for id := range log {
+			if _, ok := cur[id]; !ok {
+				delete(log, id)
+			}
+		}
+	}
+	for i, s := range w.sess {
+		if s == nil {
+			continue
+		}
+		e, ok := w.cacheOf(s).VerifSessionKeys()[s.id]
+		if !ok {
+			continue
+		}
+		ki := e.KeyInfo()
+		if (ki == nil) != (s.key == nil) || (ki != nil && !bytes.Equal(ki.Data, s.key)) {
+			fail("cached-key-changed", "after %s: the server's cache no longer holds the key session %d was stored with", what, i+1)
+		}
+	}
+}
+
+func keyDiff(rec *keyRec, ki *security.KeyInfo) string {
+	if ki == nil {
+		return "key removed"
+	}
+	if !rec.has {
+		return "key added"
+	}
+	zero := true
+	for _, b := range ki.Data {
+		if b != 0 {
+			zero = false
+		}
+	}
+	return fmt.Sprintf("%d bytes before, %d now, all zero now=%v, cipher %q -> %q", len(rec.data), len(ki.Data), zero && len(ki.Data) > 0, rec.proto, ki.Protocol)
+}
+
+// guessKey: what a requester that never held session `target`'s key tries
+func (w *world) guessKey(o op, sid string, target *sess) []byte {
+	switch o.Guess {
+	case "ff":
+		return bytes.Repeat([]byte{0xff}, 32)
+	case "sid": // the session id's own bytes
+		k := make([]byte, 32)
+		for i := range k {
+			k[i] = sid[i%len(sid)]
+		}
+		return k
+	case "other": // the key of another session
+		for _, x := range w.sess {
+			if x != nil && x != target && len(x.key) == 32 {
+				return cp(x.key)
+			}
+		}
+		return detKey(o.N, 98)
+	case "old": // the key an earlier registration of this id had
+		if target != nil && len(target.oldKeys) > 0 && len(target.oldKeys[len(target.oldKeys)-1]) == 32 {
+			return cp(target.oldKeys[len(target.oldKeys)-1])
+		}
+		return detKey(o.N, 97)
+	}
+	return make([]byte, 32) // all zero
 }
 
 func mutateID(id string) string {
@@ -704,9 +1002,9 @@ func mutateID(id string) string {
 	return string(b)
 }
 
-func runHistory(h history) runOut {
+func runHistory(h history) (out runOut) {
 	w := newWorld(h)
-	out := runOut{counts: map[string]int{}}
+	out = runOut{counts: map[string]int{}}
 	fail := func(key, f string, a ...interface{}) {
 		out.fails = append(out.fails, failure{key, fmt.Sprintf(f, a...)})
 	}
@@ -716,13 +1014,32 @@ func runHistory(h history) runOut {
 		}
 		return nil
 	}
+	prev := ""
+	defer func() {
+		if prev != "" {
+			out.checks++
+			w.checkKeys(prev, fail)
+		}
+	}()
 	for i, o := range h.Ops {
 		what := fmt.Sprintf("step %d (%s)", i, o.Kind)
+		if prev != "" {
+			out.checks++
+			w.checkKeys(prev, fail)
+		}
+		prev = what
 		out.counts["op-"+o.Kind]++
 		var term string
 		switch o.Kind {
 		case "est":
-			s := w.establish(o.Enc, o.Auth, o.Shared && !o.BigDur, o.AskDur, o.AskLease, o.BigDur)
+			ecmd := o.Cmd
+			if ecmd == 0 {
+				ecmd = cmdServed
+			}
+			s := w.establishX(o.Enc, o.Auth, o.Shared && !o.BigDur, o.AskDur, o.AskLease, o.BigDur, o.Via, ecmd)
+			if o.Via {
+				out.counts[fmt.Sprintf("est-via-dispatcher-cmd=%d", ecmd)]++
+			}
 			if o.AskDur != 0 || o.AskLease != 0 {
 				out.counts["est-client-proposes-lifetime"]++
 			}
@@ -735,10 +1052,19 @@ func runHistory(h history) runOut {
 			if o.Enc != (s.key != nil) {
 				fail("stored-key-mismatch", "%s: encrypted=%v session stored with key present=%v", what, o.Enc, s.key != nil)
 			}
+			if !bytes.Equal(s.storedKey, s.key) {
+				fail("cached-key-changed", "%s: the key in the server's cache entry after the handshake (command %d, handler ran=%v) is not the key the handshake negotiated (the one on the client's stream)", what, ecmd, s.estServed)
+			}
+			if o.Via {
+				out.checks++
+				if s.estServed != expectServed(ecmd, s.authd, s.user) {
+					fail("dispatch-disagrees", "%s: full handshake for command %d (authenticated=%v user=%q): handler ran=%v", what, ecmd, s.authd, s.user, s.estServed)
+				}
+			}
 			if o.Auth && (!s.authd || !strings.HasPrefix(s.user, "mapped-")) {
 				fail("establish-failed", "%s: CLAIMTOBE handshake with identity mapping established user=%q authenticated=%v", what, s.user, s.authd)
 			}
-			if s.storedUser != s.user || s.storedAuthd != s.authd {
+			if (!o.Via || s.estServed) && (s.storedUser != s.user || s.storedAuthd != s.authd) {
 				fail("stored-identity-differs", "%s: the handshake established user=%q authenticated=%v but the session was cached with user=%q authenticated=%v", what, s.user, s.authd, s.storedUser, s.storedAuthd)
 			}
 			if o.Auth {
@@ -760,6 +1086,20 @@ func runHistory(h history) runOut {
 				term = fmt.Sprintf("YStoreRaw n%d %s %s %s z%d", len(w.sess), core.Bool(s.custom), keyTerm(s), polTerm(s), sessLease)
 			} else {
 				term = fmt.Sprintf("YStoreP n%d %s %s %s z%d z%d", len(w.sess), core.Bool(s.custom), keyTerm(s), polTerm(s), sessDuration, sessLease)
+			}
+		case "rekey":
+			// the id of a directly stored session is registered again with a fresh key: a NEW session under the old id
+			old := sessOf(o.N)
+			if old == nil || old.raw.Kind != "raw" {
+				continue
+			}
+			s := w.storeRawG(old.raw, o.N, old.gen+1)
+			s.oldKeys = append(append([][]byte{}, old.oldKeys...), old.key)
+			w.sess[o.N-1] = s
+			if old.raw.NoExp {
+				term = fmt.Sprintf("YStoreRaw n%d %s %s %s z%d", o.N, core.Bool(s.custom), keyTerm(s), polTerm(s), sessLease)
+			} else {
+				term = fmt.Sprintf("YStoreP n%d %s %s %s z%d z%d", o.N, core.Bool(s.custom), keyTerm(s), polTerm(s), sessDuration, sessLease)
 			}
 		case "mint":
 			s := w.mint(len(w.sess)+1, o.EncOff, o.IntOff)
@@ -855,6 +1195,10 @@ func runHistory(h history) runOut {
 			}
 			term = fmt.Sprintf("YRenew n%d %s %s", o.N, core.Bool(s.custom), core.Bool(ok))
 		case "resume":
+			if o.Via { // the handshake's outcome must be visible to the requester; the in-flight Invalidate hook is for the bare handshake
+				o.Want, o.Inv = true, false
+				out.counts[fmt.Sprintf("resume-via-dispatcher-cmd=%d", o.Cmd)]++
+			}
 			s := sessOf(o.N)
 			sid, sidTerm := "", ""
 			var target *sess
@@ -916,7 +1260,12 @@ func runHistory(h history) runOut {
 				}
 				hook = func() { invRan, invRet = true, w.cacheOf(target).Invalidate(target.id) }
 			}
-			go func() { ch <- serveH(sc, serverConfigX(true, w.custom, false, o.Opt), peer, hook) }()
+			if o.Via {
+				go func() { ch <- serveVia(sc, serverConfigX(true, w.custom, false, o.Opt)) }()
+			} else {
+				go func() { ch <- serveH(sc, serverConfigX(true, w.custom, false, o.Opt), peer, hook) }()
+			}
+			var guessed []byte
 			sharedLegit := o.Req == "legit" && target != nil && target.client == security.GetSessionCache()
 			_, storedBefore := security.GetSessionCache().VerifSessionKeys()[sid]
 			var ro reqObs
@@ -924,8 +1273,12 @@ func runHistory(h history) runOut {
 			cmd := o.Cmd
 			switch o.Req {
 			case "legit":
-				ro = legit(cc, target.client, sid, cmd)
+				ro = legitX(cc, target.client, sid, cmd, o.AuthReq)
 				want = true
+			case "guess":
+				guessed = w.guessKey(o, sid, target)
+				ro = scripted(cc, sid, want, cmd, guessed)
+				out.counts["resume-guess-"+o.Guess]++
 			case "wrongkey":
 				ro = scripted(cc, sid, want, cmd, detKey(o.N, 99))
 			case "rightkey":
@@ -938,6 +1291,10 @@ func runHistory(h history) runOut {
 				ro = scripted(cc, sid, want, cmd, nil)
 			}
 			so := <-ch
+			if o.Via && !so.ok && ro.reply == "authorized" {
+				// the requester was told AUTHORIZED, then the dispatcher refused the command: no handler saw the negotiation
+				so.ok, so.hsOnly = true, true
+			}
 			out.counts["resume-"+o.Req+"-ok="+fmt.Sprint(so.ok)]++
 			if o.Req == "legit" && len(ro.wrote) == 0 {
 				// the client found no usable cached copy and sent nothing: not a resumption request
@@ -949,7 +1306,16 @@ func runHistory(h history) runOut {
 			// ---- the direct oracle ----
 			out.checks++
 			var lazyDeleted *sess
-			holdsKey := o.Req == "legit" || (o.Req == "rightkey" && (baseKey == nil || (target != nil && bytes.Equal(baseKey, target.key))))
+			holdsKey := o.Req == "legit" || (o.Req == "rightkey" && (baseKey == nil || (target != nil && bytes.Equal(baseKey, target.key)))) ||
+				(o.Req == "guess" && target != nil && target.key != nil && bytes.Equal(guessed, target.key))
+			// the client's own policy refuses the session AFTER the server resumed it (checkResumedSession on the client)
+			clientRefused := o.Req == "legit" && o.AuthReq && so.ok && ro.clientErr == "err"
+			if clientRefused {
+				out.counts["client-policy-refused-resumed-session"]++
+				if target != nil && target.authd {
+					fail("identity-not-restored", "%s: a client requiring authentication refused the resumed session although it was established authenticated", what)
+				}
+			}
 			if so.ok {
 				out.ok++
 				switch {
@@ -962,22 +1328,33 @@ func runHistory(h history) runOut {
 				case !target.usable || target.key == nil:
 					fail("keyless-session-resumed", "%s: server resumed session %d which carries no usable key (%s); requester got Authentication=%v user=%q, stream encrypted=%v", what, o.N, target.keyKind, so.authd, so.user, so.streamEnc)
 				}
-				if !so.streamEnc {
+				if so.hsOnly {
+					// nothing of the negotiation is visible
+				} else if !so.streamEnc {
 					fail("resumed-stream-not-encrypted", "%s: ServerHandshake returned success on a resumption but the stream is not encrypting (reported Encryption=%v)", what, so.encFlag)
 				} else if target != nil && !bytes.Equal(so.streamKey, target.key) {
 					fail("resumed-with-other-key", "%s: stream key differs from the session's key", what)
 				}
-				if so.encFlag != so.streamEnc {
+				if !so.hsOnly && so.encFlag != so.streamEnc {
 					fail("encryption-flag-disagrees", "%s: negotiation reports Encryption=%v, stream encrypting=%v", what, so.encFlag, so.streamEnc)
 				}
-				if target != nil && target.hasPol && (so.user != target.user || so.authd != target.authd) {
+				if so.hsOnly {
+				} else if target != nil && target.hasPol && (so.user != target.user || so.authd != target.authd) {
 					fail("identity-not-restored", "%s: resumed with user=%q authenticated=%v, established with user=%q authenticated=%v", what, so.user, so.authd, target.user, target.authd)
 				}
-				if target != nil && !target.hasPol && (so.user != "" || so.authd) {
+				if !so.hsOnly && target != nil && !target.hasPol && (so.user != "" || so.authd) {
 					fail("identity-not-restored", "%s: session without policy resumed with user=%q authenticated=%v", what, so.user, so.authd)
 				}
-				if so.sid != sid {
+				if !so.hsOnly && so.sid != sid {
 					fail("identity-not-restored", "%s: negotiation names another session id", what)
+				}
+				if o.Via && target != nil {
+					if exp := expectServed(cmd, target.authd, target.user); exp != so.served {
+						fail("dispatch-disagrees", "%s: resumed session (authenticated=%v user=%q) asked for command %d: handler ran=%v, the command table says %v", what, target.authd, target.user, cmd, so.served, exp)
+					}
+					if !so.served {
+						out.counts["resumed-then-command-refused"]++
+					}
 				}
 				if target != nil && target.lease != 0 {
 					target.exp = w.now + target.lease
@@ -1001,6 +1378,10 @@ func runHistory(h history) runOut {
 			}
 			if so.appAccepted && !holdsKey {
 				fail("app-data-accepted-without-key", "%s: a requester without the session key (%s) got application data accepted (%d, %q)", what, o.Req, so.appInt, so.appStr)
+				fail("keyless-requester-data-accepted", "%s: a requester that never held the session key (%s %s) got its data (%d, %q) accepted by the application as user=%q authenticated=%v", what, o.Req, o.Guess, so.appInt, so.appStr, so.user, so.authd)
+			}
+			if (ro.gotCanary || ro.rawCanary) && !holdsKey {
+				fail("keyless-requester-read-reply", "%s: a requester that never held the session key (%s %s) could open what the server sent to it", what, o.Req, o.Guess)
 			}
 			if ro.rawCanary {
 				fail("server-data-readable-without-key", "%s: what the server sent after the handshake is readable in clear by the requester (%s)", what, o.Req)
@@ -1008,10 +1389,10 @@ func runHistory(h history) runOut {
 			if ro.gotCanary && !holdsKey {
 				fail("server-data-readable-without-key", "%s: a requester without the session key decoded the server's data", what)
 			}
-			if holdsKey && so.ok && (!so.appAccepted || so.appStr != appWord || !ro.gotCanary) {
+			if holdsKey && so.ok && !clientRefused && (!o.Via || so.served) && (!so.appAccepted || so.appStr != appWord || !ro.gotCanary) {
 				fail("key-holder-cannot-talk", "%s: requester holding the right key: app accepted=%v canary read=%v", what, so.appAccepted, ro.gotCanary)
 			}
-			if o.Req == "legit" && so.ok {
+			if o.Req == "legit" && so.ok && !so.hsOnly && !clientRefused {
 				if !bytes.Equal(ro.clientKey, so.streamKey) {
 					fail("keys-differ", "%s: client and server streams hold different keys after resumption", what)
 				}
@@ -1039,6 +1420,11 @@ func runHistory(h history) runOut {
 			term = fmt.Sprintf("YResume %s %s z%d %s %s %s %s %s %s %s %s", sidTerm, core.Bool(want), cmd, core.Bool(so.ok), rep,
 				core.Bool(so.authd), core.Opt(so.user != "", hexs(so.user)), core.Opt(so.valid != "", hexs(so.valid)),
 				core.Bool(so.encFlag), core.Bool(so.resumed), core.Bool(so.streamEnc && keyEq))
+			if o.Via {
+				term = fmt.Sprintf("YServe %s z%d %s %s %s %s %s %s %s %s %s %s", sidTerm, cmd, core.Bool(o.Opt), core.Bool(so.ok), rep, core.Bool(so.served),
+					core.Bool(so.authd), core.Opt(so.user != "", hexs(so.user)), core.Opt(so.valid != "", hexs(so.valid)),
+					core.Bool(so.encFlag), core.Bool(so.resumed), core.Bool(so.streamEnc && keyEq))
+			}
 			if o.Inv {
 				out.checks++
 				if !invRan {
@@ -1052,7 +1438,7 @@ func runHistory(h history) runOut {
 				term = "YResumeInv" + strings.TrimPrefix(term, "YResume") + " " + core.Bool(target.custom) + " " + core.Bool(invRet)
 				out.counts["resume-with-invalidate-during-reply"]++
 			}
-			if so.ok && so.command != cmd {
+			if so.ok && !so.hsOnly && so.command != cmd {
 				fail("command-not-restored", "%s: resumed command %d, requested %d", what, so.command, cmd)
 			}
 			if _, storedAfter := security.GetSessionCache().VerifSessionKeys()[sid]; sharedLegit && !so.ok && storedBefore && !storedAfter && !(target.exp >= 0 && w.now > target.exp) {
@@ -1075,7 +1461,7 @@ func keyTerm(s *sess) string {
 	if s.key == nil {
 		return "KNone"
 	}
-	return fmt.Sprintf("(KKey %s n%d)", hexs(s.proto), len(s.key))
+	return kspecTerm(s.proto, len(s.key), s.gen)
 }
 func polTerm(s *sess) string {
 	if !s.hasPol {
@@ -1200,7 +1586,8 @@ func randOp(c *core.Ctx, nsess int, custom bool) op {
 	r := c.Rng
 	keys := []string{"nil", "nil", "empty", "aes32", "aesgcm32", "aes16", "blowfish32", "noproto32", "noproto32"}
 	pols := []string{"none", "auth", "auth", "unauth"}
-	reqs := []string{"legit", "legit", "idonly", "idonly", "wrongkey", "rightkey", "unknown", "onechar"}
+	reqs := []string{"legit", "legit", "idonly", "idonly", "wrongkey", "rightkey", "unknown", "onechar", "guess", "guess"}
+	viaCmds := []int{cmdServed, cmdServed, cmdAuthReq, cmdDenied, cmdRawOnly, cmdUnreg, 0}
 	x := r.Intn(100)
 	switch {
 	case nsess == 0 || x < 14:
@@ -1222,14 +1609,26 @@ func randOp(c *core.Ctx, nsess int, custom bool) op {
 			PolSec: []string{"", "", "NO/NO", "NO/YES", "YES/NO", "YES/YES", "NEVER/NEVER"}[r.Intn(7)]}
 	case x < 62:
 		o := op{Kind: "resume", N: 1 + r.Intn(nsess), Req: reqs[r.Intn(len(reqs))], Want: r.Intn(3) > 0, Other: r.Intn(4) == 0, Opt: r.Intn(2) == 0, Cmd: []int{421, 60007, 0}[r.Intn(3)]}
+		if o.Req == "guess" {
+			o.Guess = []string{"zero", "zero", "ff", "sid", "other", "old"}[r.Intn(6)]
+		}
+		if o.Req == "legit" && r.Intn(5) == 0 {
+			o.AuthReq = true
+		}
+		if r.Intn(5) < 2 {
+			o.Via, o.Want, o.Cmd = true, true, viaCmds[r.Intn(len(viaCmds))]
+			return o
+		}
 		if r.Intn(8) == 0 && (o.Req == "idonly" || o.Req == "rightkey" || o.Req == "wrongkey") {
 			o.Inv = true
 		} else if r.Intn(5) == 0 {
 			o.Derive = []string{"filetrans", "filetrans", "xfer", "suffix", "upper", "substr"}[r.Intn(6)]
 		}
 		return o
-	case x < 66:
+	case x < 64:
 		return op{Kind: "renew", N: 1 + r.Intn(nsess)}
+	case x < 66:
+		return op{Kind: "rekey", N: 1 + r.Intn(nsess)}
 	case x < 70:
 		return op{Kind: "ft", N: 1 + r.Intn(nsess)}
 	case x < 86:
@@ -1329,6 +1728,30 @@ func gen(c *core.Ctx) error {
 		{{Kind: "raw", Key: "aes32", Pol: "auth", NoExp: true}, {Kind: "tick", Dt: 3000}, R(1, "rightkey", true), {Kind: "tick", Dt: 3000}, R(1, "rightkey", true)},
 		{{Kind: "raw", Key: "aes32", Pol: "auth"}, {Kind: "tick", Dt: 1500}, {Kind: "renew", N: 1}, {Kind: "tick", Dt: 500}, {Kind: "tick", Dt: 500}, R(1, "rightkey", true), {Kind: "tick", Dt: 500}, R(1, "rightkey", true)},
 	}
+	// histories through the dispatching server: resumptions whose command the dispatcher then refuses (unregistered,
+	// raw-only, per-command policy, Authorizer), full handshakes whose command it refuses, between attempts of a
+	// requester that never held the key (guessing all-zero, all-0xFF, the id's bytes, another session's key, an earlier
+	// key of the id) and of the key holder
+	V := func(n int, req, guess string, cmd int) op {
+		return op{Kind: "resume", N: n, Req: req, Guess: guess, Want: true, Via: true, Cmd: cmd}
+	}
+	directed = append(directed, [][]op{
+		{{Kind: "mint"}, V(1, "rightkey", "", cmdServed), V(1, "guess", "zero", cmdServed), V(1, "idonly", "", cmdUnreg), V(1, "guess", "zero", cmdServed), V(1, "rightkey", "", cmdServed)},
+		{{Kind: "raw", Key: "aes32", Pol: "auth"}, V(1, "idonly", "", cmdDenied), V(1, "guess", "zero", cmdServed), V(1, "idonly", "", cmdRawOnly), V(1, "guess", "ff", cmdServed), V(1, "rightkey", "", cmdAuthReq), V(1, "guess", "sid", cmdAuthReq), V(1, "idonly", "", 0), V(1, "guess", "zero", cmdAuthReq)},
+		{{Kind: "raw", Key: "aesgcm32", Pol: "unauth"}, V(1, "rightkey", "", cmdAuthReq), V(1, "guess", "zero", cmdServed), V(1, "rightkey", "", cmdServed), {Kind: "inval", N: 1}, V(1, "rightkey", "", cmdServed), V(1, "guess", "zero", cmdServed)},
+		{{Kind: "est", Enc: true, Via: true, Cmd: cmdUnreg}, R(1, "legit", true), V(1, "guess", "zero", cmdServed), V(1, "legit", "", cmdServed)},
+		{{Kind: "est", Enc: true, Auth: true, Via: true, Cmd: cmdDenied}, V(1, "legit", "", cmdAuthReq), V(1, "guess", "zero", cmdAuthReq), V(1, "legit", "", cmdDenied), V(1, "guess", "zero", cmdServed)},
+		{{Kind: "est", Enc: true, Via: true, Cmd: cmdRawOnly}, V(1, "guess", "zero", cmdServed), V(1, "legit", "", cmdAuthReq), V(1, "guess", "ff", cmdServed), V(1, "legit", "", cmdServed)},
+		{{Kind: "est", Enc: true, Auth: true, Via: true}, V(1, "legit", "", cmdServed), V(1, "idonly", "", cmdUnreg), V(1, "legit", "", cmdAuthReq), V(1, "guess", "zero", cmdAuthReq)},
+		{{Kind: "raw", Key: "aes32", Pol: "auth"}, {Kind: "rekey", N: 1}, V(1, "guess", "old", cmdServed), V(1, "rightkey", "", cmdServed), V(1, "idonly", "", cmdUnreg), V(1, "guess", "old", cmdServed), V(1, "guess", "zero", cmdServed), {Kind: "rekey", N: 1}, V(1, "guess", "old", cmdServed)},
+		{{Kind: "raw", Key: "aes32", Pol: "auth"}, {Kind: "raw", Key: "aesgcm32", Pol: "auth"}, V(1, "guess", "other", cmdServed), V(2, "idonly", "", cmdDenied), V(1, "guess", "other", cmdServed), V(2, "guess", "zero", cmdServed), V(2, "rightkey", "", cmdServed)},
+		{{Kind: "mint"}, V(1, "idonly", "", cmdUnreg), {Kind: "tick", Dt: 3000}, V(1, "guess", "zero", cmdServed), V(1, "rightkey", "", cmdServed)},
+		{{Kind: "mint"}, {Kind: "ft", N: 1}, V(2, "idonly", "", cmdRawOnly), V(1, "guess", "zero", cmdServed), V(2, "guess", "zero", cmdServed), V(2, "guess", "other", cmdServed)},
+		// the client's OWN policy (Authentication REQUIRED) refuses a session the server has just resumed
+		{{Kind: "est", Enc: true}, {Kind: "resume", N: 1, Req: "legit", Want: true, AuthReq: true, Cmd: 421}, R(1, "legit", true), {Kind: "resume", N: 1, Req: "legit", Want: true, AuthReq: true, Via: true, Cmd: cmdServed}, V(1, "legit", "", cmdServed), V(1, "guess", "zero", cmdServed)},
+		{{Kind: "est", Enc: true, Shared: true}, {Kind: "resume", N: 1, Req: "legit", Want: true, AuthReq: true, Cmd: 421}, R(1, "legit", true), R(1, "idonly", true), {Kind: "resume", N: 1, Req: "guess", Guess: "zero", Want: true, Cmd: 421}},
+		{{Kind: "est", Enc: true, Auth: true}, {Kind: "resume", N: 1, Req: "legit", Want: true, AuthReq: true, Cmd: 421}, R(1, "legit", true)},
+	}...)
 	for _, ops := range directed {
 		for _, cu := range []bool{false, true} {
 			h := history{Ops: ops, UseCustom: cu}
@@ -1372,6 +1795,31 @@ func gen(c *core.Ctx) error {
 			if len(prefix) > 1 {
 				emit(c, history{Ops: append([]op(nil), prefix...)})
 				c.Count("exhaustive-sequences")
+			}
+			if depth == maxLen {
+				return
+			}
+			for _, a := range alpha {
+				rec(append(prefix, a), depth+1)
+			}
+		}
+		rec([]op{k.first}, 0)
+	}
+	// exhaustive, through the dispatcher: for a keyed session of each of three kinds EVERY sequence of up to 3 (thorough 4)
+	// operations over: a key-less resumption for an unregistered command / a key holder's resumption for the command that
+	// requires authentication / a key-less requester guessing the all-zero key for a served command / the key holder for a
+	// served command / Invalidate / tick past expiry
+	for _, k := range []kind{
+		{op{Kind: "raw", Key: "aes32", Pol: "auth"}, "rightkey"},
+		{op{Kind: "est", Enc: true}, "legit"},
+		{op{Kind: "mint"}, "rightkey"},
+	} {
+		alpha := []op{V(1, "idonly", "", cmdUnreg), V(1, k.holder, "", cmdAuthReq), V(1, "guess", "zero", cmdServed), V(1, k.holder, "", cmdServed), {Kind: "inval", N: 1}, {Kind: "tick", Dt: 3000}}
+		var rec func(prefix []op, depth int)
+		rec = func(prefix []op, depth int) {
+			if len(prefix) > 1 {
+				emit(c, history{Ops: append([]op(nil), prefix...)})
+				c.Count("exhaustive-sequences-through-dispatcher")
 			}
 			if depth == maxLen {
 				return
